@@ -144,6 +144,25 @@ func vkC06Reply(cs vkSrvCase, path vkPath, raw []byte, decodable bool, r vkResul
 	if opt != nil && !queryHasOPT {
 		return "reply carries OPT although the query had none: " + m.String(), ""
 	}
+	// an OPT is an OPT wherever it sits: a TYPE 41 record in the answer or authority section reaches the client too
+	for si, sec := range [][]dns.RR{m.Answer, m.Ns} {
+		for _, rr := range sec {
+			if rr.Header().Rrtype != dns.TypeOPT {
+				continue
+			}
+			where := []string{"answer", "authority"}[si]
+			if !queryHasOPT {
+				return "reply carries an OPT record (in its " + where + " section) although the query had none: " + m.String(), ""
+			}
+			if o, ok := rr.(*dns.OPT); ok {
+				for _, e := range o.Option {
+					if ck, ok := e.(*dns.EDNS0_COOKIE); ok && ck.Cookie == "aaaaaaaaaaaaaaaabbbbbbbbbbbbbbbb" {
+						return "the upstream's cookie was relayed to the client inside an OPT record in the " + where + " section: " + m.String(), ""
+					}
+				}
+			}
+		}
+	}
 	// 4. DNSSEC records only with DO or for an RRSIG question
 	if !(p.OPT && p.DO) && p.Qtype != dns.TypeRRSIG {
 		for _, sec := range [][]dns.RR{m.Answer, m.Ns} {
